@@ -16,8 +16,8 @@ ALPHABET = ["a", "é", "\n", "\r"]
 
 BOUNDS = {
     "quick": {
-        "contents": "all strings of length <= 5 over {a, é, \\n, \\r} (1365) for the 4 plain classes, length <= 4 "
-                    "(341) for the 4 record classes; + 6 long-line contents (lines of 70 000 / 40 000 chars, "
+        "contents": "all strings of length <= 5 over {a, é, \\n, \\r} (1365) for the 4 plain and the 4 record classes "
+                    "(trivial Record subclass); + 6 long-line contents (lines of 70 000 / 40 000 chars, "
                     "beyond the 8 KiB io buffer); empty file for the buffered classes only",
         "index_sources": ["built", "list", "index_file", "reversed", "odd_subset", "last_first", "rotated"],
         "selectors": "every int in [-n-1, n], 12 slices, 6 index iterables",
@@ -28,7 +28,7 @@ BOUNDS = {
                   "random positions",
     },
     "thorough": {
-        "contents": "length <= 6 (5461) for the plain classes, length <= 5 for the record classes; long lines; "
+        "contents": "length <= 6 (5461) for the plain and the record classes; long lines; "
                     "empty file",
         "index_sources": ["built", "list", "index_file", "reversed", "odd_subset", "last_first", "rotated"],
         "selectors": "as quick",
@@ -81,7 +81,7 @@ def _schedules(alpha, max_len):
 
 def cases(tier, seed):
     quick = tier != "thorough"
-    plain_len, rec_len = (5, 4) if quick else (6, 5)
+    plain_len, rec_len = (5, 5) if quick else (6, 6)
     # exhaustive core ----------------------------------------------------------------------------------------
     for content in U.strings_upto(ALPHABET, plain_len):
         for cls in U.PLAIN_CLASSES:
